@@ -85,5 +85,5 @@ Theorem C20_implicit_move_dependence_refuted_for_plain_return :
 Proof. exact key_move_refuted. Qed.
 
 Theorem C20_prior_memory_dependence_refuted_for_uninitialised_counters :
-  exists junk x, GenQ.empty_queue (is_nil (opending (copy_of false junk junk x))) (oecnt (copy_of false junk junk x)) = false.
+  exists junk x, GenQ.empty_queue (is_nil (opending (copy_of false false junk junk x))) (oecnt (copy_of false false junk junk x)) = false.
 Proof. exact uninitialised_counters_refuted. Qed.
